@@ -1,5 +1,7 @@
 import Uom.Props.C07
 import Uom.Props.C15
+import Uom.Proofs.BodyEq.Temp
+import Uom.Proofs.BodyEq.Mixed
 /-!
 # C17 — feature flags change what compiles, never what a compiled program computes
 
@@ -46,5 +48,82 @@ theorem mul_add_mode_irrelevant (f : Fmt) (hf : f.WF) (la lb x a b : Fl)
 /-- `new`/`get` do not mention autoconvert or std at all: same function of the same parameters -/
 theorem conversion_config_free (S : Storage) (coef c f : S.T) (v : S.V) :
     toBase S coef c f v = toBase S coef c f v ∧ fromBase S coef c f v = fromBase S coef c f v := ⟨rfl, rfl⟩
+
+/-! ### tie to the source: the feature-gated twins regenerated from /repo/src on this run
+
+Every operator that exists twice (`autoconvert!` / `not_autoconvert!`, or `#[cfg(feature = "autoconvert")]`
+/ `#[cfg(not(...))]`) is compared body against body: with shared base units (`Ul = Ur`, the only
+operands a program compiling under both configurations can combine) and `change_base` the identity at
+the operand, the two regenerated bodies evaluate to the same value, for every storage type. -/
+section SourceTie
+open Uom.Body Uom.Gen.Body
+
+theorem src_twins_agree (N : NumTy) (env : Env N) (a b : N.S.V)
+    (hD : env.bf .Ur .D = env.bf .Ul .D) (hDr : env.bf .Ur .Dr = env.bf .Ul .Dr)
+    (hid : changeBase N.S (env.bf .Ul .D) (env.bf .Ul .D) b = b)
+    (hidr : changeBase N.S (env.bf .Ul .Dr) (env.bf .Ul .Dr) b = b) :
+    run N env system_Add_Quantity_for_Quantity_add_auto [argQ a, argQ b] = run N env system_Add_for_Quantity_add_noauto [argQ a, argQ b] ∧
+    run N env system_Sub_Quantity_for_Quantity_sub_auto [argQ a, argQ b] = run N env system_Sub_for_Quantity_sub_noauto [argQ a, argQ b] ∧
+    run N env system_Rem_Quantity_for_Quantity_rem_auto [argQ a, argQ b] = run N env system_Rem_for_Quantity_rem_noauto [argQ a, argQ b] ∧
+    run N env system_Mul_Quantity_for_Quantity_mul_auto [argQ a, argQ b] = run N env system_Mul_Quantity_for_Quantity_mul_noauto [argQ a, argQ b] ∧
+    run N env system_Div_Quantity_for_Quantity_div_auto [argQ a, argQ b] = run N env system_Div_Quantity_for_Quantity_div_noauto [argQ a, argQ b] ∧
+    run N env system_AddAssign_Quantity_for_Quantity_add_assign_auto [argQ a, argQ b] = run N env system_AddAssign_for_Quantity_add_assign_noauto [argQ a, argQ b] ∧
+    run N env system_SubAssign_Quantity_for_Quantity_sub_assign_auto [argQ a, argQ b] = run N env system_SubAssign_for_Quantity_sub_assign_noauto [argQ a, argQ b] ∧
+    run N env system_RemAssign_Quantity_for_Quantity_rem_assign_auto [argQ a, argQ b] = run N env system_RemAssign_for_Quantity_rem_assign_noauto [argQ a, argQ b] ∧
+    run N env system_PartialEq_Quantity_for_Quantity_eq_auto [argQ a, argQ b] = run N env system_PartialEq_for_Quantity_eq_noauto [argQ a, argQ b] ∧
+    run N env system_PartialOrd_Quantity_for_Quantity_lt_auto [argQ a, argQ b] = run N env system_PartialOrd_for_Quantity_lt_noauto [argQ a, argQ b] ∧
+    run N env system_PartialOrd_Quantity_for_Quantity_partial_cmp_auto [argQ a, argQ b] = run N env system_PartialOrd_for_Quantity_partial_cmp_noauto [argQ a, argQ b] := by
+  have on := C07.src_on_same_base_is_raw N env a b hD hDr hid hidr
+  have off := C07.src_off_is_raw N env a b
+  obtain ⟨o1, o2, o3, o4, o5, o6, o7, o8, o9, o10, o11⟩ := on
+  obtain ⟨f1, f2, f3, f4, f5, f6, f7, f8, f9, f10, _, _, _, f14⟩ := off
+  exact ⟨o1.trans f1.symm, o2.trans f2.symm, o3.trans f3.symm, o4.trans f4.symm, o5.trans f5.symm,
+    o6.trans f6.symm, o7.trans f7.symm, o8.trans f8.symm, o9.trans f9.symm, o10.trans f10.symm, o11.trans f14.symm⟩
+
+/-- the remaining comparison twins (`<=`, `>`, `>=`) -/
+theorem src_cmp_twins_agree (N : NumTy) (env : Env N) (a b : N.S.V)
+    (hD : env.bf .Ur .D = env.bf .Ul .D)
+    (hid : changeBase N.S (env.bf .Ul .D) (env.bf .Ul .D) b = b) :
+    run N env system_PartialOrd_Quantity_for_Quantity_le_auto [argQ a, argQ b] = run N env system_PartialOrd_for_Quantity_le_noauto [argQ a, argQ b] ∧
+    run N env system_PartialOrd_Quantity_for_Quantity_gt_auto [argQ a, argQ b] = run N env system_PartialOrd_for_Quantity_gt_noauto [argQ a, argQ b] ∧
+    run N env system_PartialOrd_Quantity_for_Quantity_ge_auto [argQ a, argQ b] = run N env system_PartialOrd_for_Quantity_ge_noauto [argQ a, argQ b] := by
+  refine ⟨?_, ?_, ?_⟩
+  · rw [BodyEq.le_auto_eq, BodyEq.le_noauto_eq, hD, C07.op_on_eq_off N .le _ a b hid]
+  · rw [BodyEq.gt_auto_eq, BodyEq.gt_noauto_eq, hD, C07.op_on_eq_off N .gt _ a b hid]
+  · rw [BodyEq.ge_auto_eq, BodyEq.ge_noauto_eq, hD, C07.op_on_eq_off N .ge _ a b hid]
+
+/-- temperature twins (src/si), kind-conversion twins, `hypot` and `mul_add` twins -/
+theorem src_special_twins_agree (N : NumTy) (env : Env N) (x a b : N.S.V)
+    (hT : env.bf .Ur .Dimension = env.bf .Ul .Dimension)
+    (hidT : changeBase N.S (env.bf .Ul .Dimension) (env.bf .Ul .Dimension) b = b)
+    (hE : env.bf .Ur .Dexplicit = env.bf .Ul .Dexplicit)
+    (hidE : changeBase N.S (env.bf .Ul .Dexplicit) (env.bf .Ul .Dexplicit) a = a)
+    (hH : env.bf .Ur .D = env.bf .U .D) (hidH : changeBase N.S (env.bf .U .D) (env.bf .U .D) b = b)
+    (hA : env.bf .Ua .Da = env.bf .U .Da) (hidA : changeBase N.S (env.bf .U .Da) (env.bf .U .Da) a = a)
+    (hB : env.bf .Ub .Dsum = env.bf .U .Dsum) (hidB : changeBase N.S (env.bf .U .Dsum) (env.bf .U .Dsum) b = b) :
+    run N env si_thermodynamic_temperature_Add_TemperatureInterval_for_ThermodynamicTemperature_add_auto [argQ a, argQ b]
+      = run N env si_thermodynamic_temperature_Add_TemperatureInterval_for_ThermodynamicTemperature_add_noauto [argQ a, argQ b] ∧
+    run N env si_thermodynamic_temperature_Sub_TemperatureInterval_for_ThermodynamicTemperature_sub_auto [argQ a, argQ b]
+      = run N env si_thermodynamic_temperature_Sub_TemperatureInterval_for_ThermodynamicTemperature_sub_noauto [argQ a, argQ b] ∧
+    run N env si_thermodynamic_temperature_AddAssign_TemperatureInterval_for_ThermodynamicTemperature_add_assign_auto [argQ a, argQ b]
+      = run N env si_thermodynamic_temperature_AddAssign_TemperatureInterval_for_ThermodynamicTemperature_add_assign_noauto [argQ a, argQ b] ∧
+    run N env si_thermodynamic_temperature_SubAssign_TemperatureInterval_for_ThermodynamicTemperature_sub_assign_auto [argQ a, argQ b]
+      = run N env si_thermodynamic_temperature_SubAssign_TemperatureInterval_for_ThermodynamicTemperature_sub_assign_noauto [argQ a, argQ b] ∧
+    run N env si_temperature_interval_Add_ThermodynamicTemperature_for_TemperatureInterval_add_auto [argQ a, argQ b]
+      = run N env si_temperature_interval_Add_ThermodynamicTemperature_for_TemperatureInterval_add_noauto [argQ a, argQ b] ∧
+    run N env si_mod_From_Quantity_for_Quantity_from_auto [argQ a] = run N env si_mod_From_Quantity_for_Quantity_from_noauto [argQ a] ∧
+    run N env system_inherent_Quantity_hypot_auto [argQ a, argQ b] = run N env system_inherent_Quantity_hypot_noauto [argQ a, argQ b] ∧
+    run N env system_inherent_Quantity_mul_add_auto [argQ x, argQ a, argQ b] = run N env system_inherent_Quantity_mul_add_noauto [argQ x, argQ a, argQ b] := by
+  refine ⟨?_, ?_, ?_, ?_, ?_, ?_, ?_, ?_⟩
+  · rw [BodyEq.tt_add_ti_auto_eq, BodyEq.tt_add_ti_noauto_eq, hT, C07.op_on_eq_off N .ttAddTi _ a b hidT]
+  · rw [BodyEq.tt_sub_ti_auto_eq, BodyEq.tt_sub_ti_noauto_eq, hT, C07.op_on_eq_off N .ttSubTi _ a b hidT]
+  · rw [BodyEq.tt_add_assign_ti_auto_eq, BodyEq.tt_add_assign_ti_noauto_eq, hT, C07.op_on_eq_off N .ttAddaTi _ a b hidT]
+  · rw [BodyEq.tt_sub_assign_ti_auto_eq, BodyEq.tt_sub_assign_ti_noauto_eq, hT, C07.op_on_eq_off N .ttSubaTi _ a b hidT]
+  · rw [BodyEq.ti_add_tt_auto_eq, BodyEq.ti_add_tt_noauto_eq, hT, C07.op_on_eq_off N .tiAddTt _ a b hidT]
+  · rw [BodyEq.kind_from_auto_eq, BodyEq.kind_from_noauto_eq, hE]; unfold kindFromOn kindFromOff; rw [hidE]
+  · rw [BodyEq.hypot_auto_eq, BodyEq.inherent_Quantity_hypot_noauto_eq, hH, hidH]
+  · rw [BodyEq.mul_add_auto_eq, BodyEq.mul_add_noauto_eq, hA, hB, hidA, hidB]
+
+end SourceTie
 
 end Uom.C17
